@@ -353,6 +353,8 @@ JudgeDepositCore(s, e, p, pl, res0, S0, dep, preT, preSupplyT) ==
        C08_lock_only_for_sender |-> G(lock, e.receiver = "none" \/ e.receiver = e.sender),
        C14_lock_only_for_sender |-> G(lock /\ e.single, e.receiver = "none" \/ e.receiver = e.sender),
        C08_locked_lp_goes_to_senders_position |-> G(lock, LockedFor(s, p, e.sender, pl.lp, minted, e.lock.dur)),
+       \* authorisation seen from the pool manager: a locked deposit never creates or tops up a position of anybody but the sender
+       C15_locked_deposit_touches_only_the_senders_position |-> G(lock, LockedFor(s, p, e.sender, pl.lp, minted, e.lock.dur)),
        C14_single_asset_locks_only_for_sender |-> G(lock /\ e.single, LockedFor(s, p, e.sender, pl.lp, minted, e.lock.dur)),
        C10_locked_lp_weight_credited_to_owner |-> G(lock, WeightCreditedToOwner(s, p, e.sender, pl.lp)),
        C08_unlocked_deposit_touches_no_position |-> G(~lock, p.fm.pos = s.fm.pos /\ p.fm.hist = s.fm.hist) ]
